@@ -1,5 +1,5 @@
 """What MANIFEST.json claims.  A property appears in CLAIMS only when its rule module exists and passes on the tree."""
-FIX_COMMITS = ["df712f1 (C08)", "2aecc62 (C20)", "cb1690d (C04)", "73ebd7e (C13)", "c5bd516 (C03)", "b4ea818 (C07/C19)", "594e79c (C08)"]
+FIX_COMMITS = ["df712f1 (C08)", "2aecc62 (C20)", "cb1690d (C04)", "73ebd7e (C13)", "c5bd516 (C03)", "b4ea818 (C07/C19)", "594e79c (C08)", "6c0bda4 (C12)", "4bd5621 (C12)"]
 
 CLAIMS = {
  "C07": {
@@ -26,6 +26,11 @@ CLAIMS = {
   "text": "Static decision of: one simulation pipeline (Model -> read_parameters -> Calculate -> PrintOutputs -> JSON) exists only in GEOPHIRESv3.main, unconditional and in order, and CLI, client and Monte-Carlo driver reach it (N1); `python -m geophires_x` ends non-zero on every path where main() does not return normally: rc initialised non-zero, set to 0 only after main() returns, every status-less sys.exit()/exit() reachable from main() is intercepted and mapped to non-zero, report-writer failures are not swallowed (N2); argv[1]/argv[2] are made absolute before main() changes directory, default HDR.out in the caller's cwd, JSON path derived from the report path (N3). Byte-identical reports across entry points depend on run-time state and are not claimed.",
   "note": "Trusted: gxstat call graph for reachability of exit sites (over-approximate). Not decided: file-system behaviour; the undocumented script entry without argv[2].",
   "technique": "call-graph who-may-call rule + must-pass-through ordering in main + exit-status typestate on __main__'s try/except/finally",
+ },
+ "C12": {
+  "text": "Static decision of the whole property's mechanism: read_input_file opens in text mode with universal newlines, strips each line, skips exactly the prefixes {#, --, *}, takes name and value as the stripped first two comma fields (so trailing comments cannot reach the value) and stores unconditionally in file order so the last occurrence wins (L1); every iteration over the input map in src/ is commutative (keyed stores only) except the one documented add-on exception, and all reader loops iterate the module's own dictionary, so special-case code never observes file order (L2); the client writes base-file lines before override lines, both appending (L3); copy-then-append of input lines guarantees a line break (L4). Since the layout reaches the model only through these sites, the structural facts decide the property; nothing numeric is involved.",
+  "note": "Trusted: CPython text-mode newline translation and str.strip/split semantics. Two genuine L4 defects were repaired (fix: commits 6c0bda4, 4bd5621).",
+  "technique": "AST fact extraction on the tokenizer + effect (commutativity) classification of every loop over the input map + ordering check of cooperating writer sites",
  },
 }
 
